@@ -103,7 +103,12 @@ class Check(BaseCheck):
             z = v[:, 0] + 1j * v[:, 1]
             wz = a * z + b * np.conj(z)
             Q = gen.random_rotation(rng, reflect=False)
-            emb = np.column_stack([wz.real, wz.imag, np.zeros(len(v))]) @ Q.T + abs(a) * rng.uniform(-1, 1, 3)
+            if k % 4 == 1:          # the target plane stays horizontal but is turned over (half turn about an axis in the plane), or is not rotated at all
+                ang = rng.uniform(0, np.pi); ax = np.array([np.cos(ang), np.sin(ang), 0.0])
+                Q = 2 * np.outer(ax, ax) - np.eye(3)
+            elif k % 4 == 3:
+                Q = np.eye(3)
+            emb = np.column_stack([wz.real, wz.imag, np.zeros(len(v))]) @ Q.T + abs(a) * rng.uniform(-1, 1, 3) * (np.array([1.0, 1.0, 0.0]) if k % 8 == 1 else 1.0)
             case = dict(kind="beltrami", v=v, t=t, a=[a.real, a.imag], b=[b.real, b.imag], emb=emb, name="planar")
             stats.case(core.mesh_key(v, t, a, b), cls=["beltrami"], sample=dict(nv=len(v), a=str(a), b=str(b)) if k == 0 else None)
             with core.quiet():
